@@ -201,6 +201,8 @@ class NoneEqualsHugeCase(pfbase.CfgCase):
         self.spec = params['spec']
         self.value = trees.build(self.spec) if self.spec[0] != 'range' else list(range(self.spec[1]))
         self.lowered = params.get('lowered_default')
+        # other options given alongside (none of them truncates these values)
+        self.opts = dict(params.get('opts') or {})
 
     def run(self, w, rw):
         import prettyprinter as PKG
@@ -217,11 +219,11 @@ class NoneEqualsHugeCase(pfbase.CfgCase):
             warnings.simplefilter('always')
             try:
                 if self.native:
-                    a = pfbase.native_pformat(self.value, w, rw, max_seq_len=None)
-                    b = pfbase.native_pformat(self.value, w, rw, max_seq_len=10 ** 6)
+                    a = pfbase.native_pformat(self.value, w, rw, max_seq_len=None, **self.opts)
+                    b = pfbase.native_pformat(self.value, w, rw, max_seq_len=10 ** 6, **self.opts)
                 else:
-                    a = pfbase.ptext(self.value, w, rw, max_seq_len=None)
-                    b = pfbase.ptext(self.value, w, rw, max_seq_len=10 ** 6)
+                    a = pfbase.ptext(self.value, w, rw, max_seq_len=None, **self.opts)
+                    b = pfbase.ptext(self.value, w, rw, max_seq_len=10 ** 6, **self.opts)
             except Exception as e:
                 exc = type(e).__name__
                 return self.fail('C10:pformat-raises-' + exc, lambda: '%s: %s' % (exc, e))
@@ -229,7 +231,7 @@ class NoneEqualsHugeCase(pfbase.CfgCase):
             label = trees.show(self.spec) if self.spec[0] != 'range' else 'list(range(%d))' % self.spec[1]
             if any(issubclass(x.category, UserWarning) for x in wlist):
                 return self.fail('C10:max_seq_len-None-degrades-to-repr',
-                                 lambda: 'value=%s\nNone:\n%s\n10**6:\n%s' % (label, a[:2000], b[:2000]))
+                                 lambda: 'value=%s other options=%r\nNone:\n%s\n10**6:\n%s' % (label, self.opts, a[:2000], b[:2000]))
             if a != b:
                 return self.fail('C10:None-differs-from-huge-limit',
                                  lambda: 'value=%s default max_seq_len=%r\nNone:\n...%s\n10**6:\n...%s' % (
@@ -267,6 +269,12 @@ def cases(tier, seed):
         if i % 2 == 0 or tier == 'thorough':
             out.append({'name': 'None==huge:%s:default-lowered-to-%d' % (name, 1 + i % 3), 'family': 'none',
                         'params': {'spec': spec, 'slice': 'page', 'lowered_default': 1 + i % 3}, 'budget': 60.0})
+        optsets = [{'depth': 30}, {'sort_dict_keys': True, 'indent': 2}, {'depth': 30, 'sort_dict_keys': True}]
+        if tier == 'thorough' or i % 3 == 1:
+            o = optsets[(i // 3) % len(optsets)] if tier == 'quick' else None
+            for o in ([o] if o else optsets):
+                out.append({'name': 'None==huge:%s:with-%s' % (name, '+'.join(sorted(o))), 'family': 'none',
+                            'params': {'spec': spec, 'slice': 'page', 'opts': o}, 'budget': 60.0})
         if tier == 'thorough':
             out.append({'name': 'N-symbolic:%s|ribbon' % name, 'family': 'seqlen',
                         'params': {'spec': spec, 'n': 'sym', 'slice': 'ribbon'}, 'budget': 400.0})
